@@ -348,6 +348,13 @@ func c08Opts() gen.Opts {
 	return o
 }
 
+// c08OptsFor adds the case's focus feature.
+func c08OptsFor(seed uint64) gen.Opts {
+	o := c08Opts()
+	o.Focus = gen.FocusFor(seed)
+	return o
+}
+
 // c08History draws a history over the case.
 func c08History(r *simrt.RNG, gc *gen.Case, maxLen int) *c08Hist {
 	cs := &c08Hist{Bundle: gc}
@@ -488,7 +495,7 @@ func C08(c *wk.Ctx) {
 			fmt.Sscanf(c.Extra, "%d", &want)
 			r := simrt.NewRNG(c.UnitSeed(c.Start, 8))
 			for hi := 0; hi <= want; hi++ {
-				gc := gen.Generate(c.UnitSeed(c.Start, uint64(200+hi)), c08Opts())
+				gc := gen.Generate(c.UnitSeed(c.Start, uint64(200+hi)), c08OptsFor(c.UnitSeed(c.Start, uint64(200+hi))))
 				h = c08History(r, gc, maxLenFor(c.Tier))
 			}
 		}
@@ -507,7 +514,7 @@ func C08(c *wk.Ctx) {
 		r := simrt.NewRNG(c.UnitSeed(run, 8))
 		var digest uint64
 		for hi := 0; hi < perUnit; hi++ {
-			gc := gen.Generate(c.UnitSeed(run, uint64(200+hi)), c08Opts())
+			gc := gen.Generate(c.UnitSeed(run, uint64(200+hi)), c08OptsFor(c.UnitSeed(run, uint64(200+hi))))
 			cs := c08History(r, gc, maxLen)
 			f, done, steps, budget := runHist(cs, u.Counters)
 			if f == nil && !budget && (hi == 1 || hi == 4) && c.Variant == "plain" {
